@@ -63,6 +63,8 @@ func (o c13Op) req() string {
 		return s
 	case "nwt":
 		return fmt.Sprintf("nwt %s %s", c13Path(o.Path), hexs(o.Tag))
+	case "gs":
+		return "gs " + c13Path(o.Path)
 	case "ds":
 		s := fmt.Sprintf("ds %d", len(o.Idx))
 		for _, i := range o.Idx {
@@ -122,6 +124,10 @@ func (o c13Op) String() string {
 		return fmt.Sprintf("doc.NodeByPointer(%q)", o.Ptr)
 	case "warn", "foreign", "inert":
 		return "read:" + o.Sub
+	case "str":
+		return "doc.String()"
+	case "gs":
+		return fmt.Sprintf("node%v.GEDCOMString(0)", o.Path)
 	}
 	return o.req()
 }
@@ -165,13 +171,17 @@ func (o c13Op) apiName() string {
 		return "FamilyNode.AddChild"
 	case "warn", "foreign", "inert":
 		return o.Sub
+	case "str":
+		return "Document.String"
+	case "gs":
+		return "Node.GEDCOMString"
 	}
 	return o.Kind
 }
 
 func c13IsRead(kind string) bool {
 	switch kind {
-	case "nwt", "inds", "fams", "bp", "if", "sp", "pa", "ch", "hu", "wi", "fc", "dump", "warn", "foreign", "inert":
+	case "nwt", "inds", "fams", "bp", "if", "sp", "pa", "ch", "hu", "wi", "fc", "dump", "warn", "foreign", "inert", "str", "gs":
 		return true
 	}
 	return false
@@ -312,6 +322,14 @@ func c13Nodes(xs interface{}) []gedcom.Node {
 
 const c13FNVOffset = 14695981039346656037
 const c13FNVPrime = 1099511628211
+
+func c13FNV(s string) string {
+	h := uint64(c13FNVOffset)
+	for i := 0; i < len(s); i++ {
+		h = (h ^ uint64(s[i])) * c13FNVPrime
+	}
+	return fmt.Sprintf("%016x", h)
+}
 
 func c13Digest(doc *gedcom.Document) string {
 	h := uint64(c13FNVOffset)
@@ -504,8 +522,8 @@ func (d *c13Doc) blackBox(sub string) {
 	}
 }
 
-var c13ForeignSubs = []string{"Compare", "SurroundingSimilarity", "CompareNodes", "DeepCopy", "Filter", "GEDCOMString"}
-var c13InertSubs = []string{"String", "Query"}
+var c13ForeignSubs = []string{"Compare", "SurroundingSimilarity", "CompareNodes", "DeepCopy", "Filter"}
+var c13InertSubs = []string{"Query"}
 
 // apply executes one op on the real document and returns the observation in the model's format.
 func (d *c13Doc) apply(o c13Op) (obs string) {
@@ -522,6 +540,14 @@ func (d *c13Doc) apply(o c13Op) (obs string) {
 	case "warn", "foreign", "inert":
 		d.blackBox(o.Sub)
 		return "."
+	case "str":
+		return "s=" + c13FNV(doc.String())
+	case "gs":
+		n := d.resolve(o.Path)
+		if n == nil {
+			return "bad"
+		}
+		return "s=" + c13FNV(n.GEDCOMString(0))
 	case "inds", "fams":
 		return c13View(doc, o.Kind, nil, "")
 	case "bp":
@@ -680,8 +706,8 @@ func c13Fresh(text string) (string, string, error) {
 	return c13Dump(fresh), c13UIDs(fresh), nil
 }
 
-// c13UIDs: IndividualNode.UniqueIdentifiers() of every individual record.  The property does not
-// name this view; its staleness is reported as a note, never as a failure.
+// c13UIDs: IndividualNode.UniqueIdentifiers() of every individual record (a cached view derived from
+// the individual's _UID / FamilySearch id children; compared by the oracle, not part of the model).
 func c13UIDs(doc *gedcom.Document) (s string) {
 	defer func() {
 		if r := recover(); r != nil {
@@ -698,8 +724,6 @@ func c13UIDs(doc *gedcom.Document) (s string) {
 }
 
 var c13UUIDs = []string{"11111111-2222-3333-4444-555555555555", "aaaaaaaa-bbbb-cccc-dddd-eeeeeeeeeeee"}
-
-var c13UIDNoted bool
 
 type c13Runner struct {
 	c       *Ctx
@@ -726,6 +750,7 @@ func c13NewRunner(c *Ctx, text string) (*c13Runner, error) {
 	// two dumps: the first call of NodesWithTag on a node only registers it
 	r.emit(c13Op{Kind: "dump"})
 	r.emit(c13Op{Kind: "dump"})
+	c13UIDs(doc) // UniqueIdentifiers() is remembered from its first call on
 	return r, nil
 }
 
@@ -802,7 +827,9 @@ func (r *c13Runner) do(o c13Op) {
 	before := r.last
 	textBefore := ""
 	isRead := c13IsRead(o.Kind)
+	uidsBefore := ""
 	if isRead && r.checkS {
+		uidsBefore = c13UIDs(r.d.doc)
 		textBefore = r.d.doc.String()
 		// String() itself is a read; its effect on caches is none
 	}
@@ -829,17 +856,16 @@ func (r *c13Runner) do(o c13Op) {
 			} else if after != before {
 				i, x, y := c13FirstDiff(after, before)
 				r.fail("", "a read changed a view: "+o.apiName(), r.label(i)+" = "+x, "before the read: "+y)
+			} else if u := c13UIDs(r.d.doc); u != uidsBefore {
+				r.fail("", "a read changed a view: "+o.apiName(), "UniqueIdentifiers() = "+u, "before the read: "+uidsBefore)
 			}
 		}
 		fresh, freshUIDs, err := c13Fresh(text)
 		r.emit(c13Op{Kind: "foreign", Sub: "Decode"}) // the decode above reset the node cache
 		if err == nil {
 			if live := c13UIDs(r.d.doc); live != freshUIDs {
-				c.Count("not-judged:UniqueIdentifiers-stale")
-				if !c13UIDNoted {
-					c13UIDNoted = true
-					c.Notes = append(c.Notes, fmt.Sprintf("not judged (the property does not name this view): IndividualNode.UniqueIdentifiers() is cached and never invalidated; after %s it was %q where a fresh decode gives %q (document %q)", o.String(), live, freshUIDs, r.text0))
-				}
+				r.fail("", "a view differs from a fresh decode of the current text after "+o.apiName(),
+					"UniqueIdentifiers() of the individuals = "+live, "fresh decode: "+freshUIDs)
 			}
 		}
 		if err != nil {
@@ -1091,7 +1117,18 @@ func (d *c13Doc) randomOp(r *Rand, fresh *int) c13Op {
 }
 
 func (d *c13Doc) randomRead(r *Rand) c13Op {
-	switch r.Intn(4) {
+	switch r.Intn(6) {
+	case 4:
+		return c13Op{Kind: "str", Sub: "String"}
+	case 5:
+		p := []int{0}
+		if n := len(d.doc.Nodes()); n > 0 {
+			p = []int{r.Intn(n)}
+			if ks := d.doc.Nodes()[p[0]].Nodes(); len(ks) > 0 && r.Bool() {
+				p = append(p, r.Intn(len(ks)))
+			}
+		}
+		return c13Op{Kind: "gs", Sub: "GEDCOMString", Path: p}
 	case 0:
 		return c13Op{Kind: "warn", Sub: "Warnings"}
 	case 1:
@@ -1165,6 +1202,16 @@ var c13DirectedDangling = [][]c13Op{
 	{{Kind: "ai", Ptr: "I9"}, {Kind: "dd", A: 2}},
 }
 
+// an individual with a unique id (roots: 0 I1)
+const c13UIDDoc = "0 @I1@ INDI\n1 NAME John /Smith/\n1 _UID 11111111-2222-3333-4444-555555555555\n"
+
+var c13DirectedUID = [][]c13Op{
+	// UniqueIdentifiers() after the children of the individual change
+	{{Kind: "sn", Path: []int{0}}},
+	{{Kind: "dn", Path: []int{0}, A: 1}},
+	{{Kind: "an", Path: []int{0}, Tag: "_UID", Val: "aaaaaaaa-bbbb-cccc-dddd-eeeeeeeeeeee"}},
+}
+
 func c13AllReads() []c13Op {
 	var out []c13Op
 	out = append(out, c13Op{Kind: "warn", Sub: "Warnings"})
@@ -1174,6 +1221,8 @@ func c13AllReads() []c13Op {
 	for _, s := range c13InertSubs {
 		out = append(out, c13Op{Kind: "inert", Sub: s})
 	}
+	// String() and GEDCOMString() are reads of the model (the text itself is compared)
+	out = append(out, c13Op{Kind: "str", Sub: "String"}, c13Op{Kind: "gs", Sub: "GEDCOMString", Path: []int{1}})
 	return out
 }
 
@@ -1249,6 +1298,9 @@ func c13FullDump(doc *gedcom.Document) (out []string, labels []string) {
 			}
 			add("individual "+name+".Names()", c13Show(doc, names))
 			add("individual "+name+".AllEvents()", c13Show(doc, c13Nodes(i.AllEvents())))
+			ids := i.UniqueIdentifiers().Strings()
+			sort.Strings(ids)
+			add("individual "+name+".UniqueIdentifiers()", strings.Join(ids, "+"))
 			for _, v := range []string{"if", "sp", "pa", "ch"} {
 				add("individual "+name+"."+viewName[v], c13View(doc, v, r, ""))
 			}
@@ -1566,6 +1618,16 @@ func init() {
 		// 0. directed histories
 		for _, hist := range c13Directed {
 			r, err := c13NewRunner(c, c13SmallDoc)
+			if err != nil {
+				panic(err)
+			}
+			for _, o := range hist {
+				r.do(o)
+			}
+			r.finish()
+		}
+		for _, hist := range c13DirectedUID {
+			r, err := c13NewRunner(c, c13UIDDoc)
 			if err != nil {
 				panic(err)
 			}
